@@ -70,15 +70,15 @@ func verifC10(kind int) {
 
 // VerifC10_Blocking
 //
-//verif:harness property=C10 theory=bv tier=quick timers=off unwind=3 unwindcut=1 clock=frozen
+//verif:harness property=C10 theory=bv tier=quick timers=off unwind=3 unwind_thorough=5 unwindcut=1 clock=frozen
 func VerifC10_Blocking() { verifC10(0) }
 
 // VerifC10_Deadline
 //
-//verif:harness property=C10 theory=bv tier=quick timers=off unwind=3 unwindcut=1 clock=frozen
+//verif:harness property=C10 theory=bv tier=quick timers=off unwind=3 unwind_thorough=5 unwindcut=1 clock=frozen
 func VerifC10_Deadline() { verifC10(1) }
 
 // VerifC10_Queue
 //
-//verif:harness property=C10 theory=bv tier=quick timers=off unwind=3 unwindcut=1 clock=frozen
+//verif:harness property=C10 theory=bv tier=quick timers=off unwind=3 unwind_thorough=5 unwindcut=1 clock=frozen
 func VerifC10_Queue() { verifC10(2) }
